@@ -322,11 +322,14 @@ static FILE* sim_fdopen(int fd, const char* mode) {
 // ------------------------------------------------------------------ pass-through ("real" backing): every path outside /sim/ goes to the kernel
 static inline bool is_sim_path(const char* p) { return p && !strncmp(p, "/sim/", 5); }
 static std::set<void*> g_simdirs;
+std::string g_real_root;     // the real scratch token directory of this run (knobs.tokendir): its own name is not part of the execution's identity
 static void real_log(const char* kind, const char* path, long rv) {
     g_fs.opcount[std::string("real.") + kind]++;
     sim_yield(Y_FS);
     char buf[48]; snprintf(buf, sizeof buf, "|%ld|", rv < 0 ? -1 : (strcmp(kind, "open") ? rv : 0));
-    hist_hash_only(std::string("rfs:") + kind + ":" + (path ? path : "") + buf);
+    std::string p = path ? path : "";
+    if (!g_real_root.empty() && p.compare(0, g_real_root.size(), g_real_root) == 0) p = "<tokendir>" + p.substr(g_real_root.size());
+    hist_hash_only(std::string("rfs:") + kind + ":" + p + buf);
 }
 
 // ------------------------------------------------------------------ the wraps
